@@ -18,8 +18,11 @@ Decided:
         encoding (plain and with compressed owner names) as the same message with the right length, and ``packed`` refuses header
         fields that do not fit their bits.
   R25.3 (E5) every exception that can leave ``DNSLayer.unpack_message`` / ``DNSMessage.unpack`` on untrusted bytes (explicit raises +
-        modelled implicit raisers: struct, index, idna decode/encode, recursion depth, assert) is handled by the handler around the
-        call in ``DNSLayer.state_query`` (today: struct.error only).  Log calls raise nothing.  Index arithmetic is discharged by linear
+        modelled implicit raisers: struct, index, idna decode/encode, recursion depth, assert) is handled by a handler that is active
+        when the call runs: the call of ``self.unpack_message`` is located by role - reachable from ``DNSLayer.state_query`` directly or
+        through helper methods of the layer (``_on_data`` ...) - and the ``try`` statements around it in its own function and around the
+        helper call sites on the way down from state_query count (today: struct.error only; no handler at all = everything escapes).
+        Log calls raise nothing.  Index arithmetic is discharged by linear
         reasoning over guards and single-assignment temporaries + the callers' length checks; an ``assert`` on untrusted data is
         discharged only if it was evaluated (>= 5 times) and never failed in a bounded model of ``DNSMessage.unpack`` (interpreted on
         well-formed messages, truncations, boundary-value byte mutations) - an invariant, not an input check; concrete escapes
@@ -709,6 +712,63 @@ class _DecoderModel:
                  + (f"; escapes {sorted(self.escapes)}" if self.escapes else ""))
 
 
+def _is_generator(f) -> bool:
+    return any(isinstance(n, (ast.Yield, ast.YieldFrom)) for n in _own_nodes(f))
+
+
+def _mentions(expr, env) -> bool:
+    for n in ast.walk(expr):
+        if isinstance(n, ast.Name) and env.get(n.id):
+            return True
+        if isinstance(n, ast.Attribute) and env.get(attr_chain(n) or ""):
+            return True
+    return False
+
+
+def _tainted_locals(f, env) -> dict:
+    """``env`` + every local of ``f`` that is assigned (anywhere in f: flow-insensitive, an over-approximation) from an expression that
+    mentions untrusted data"""
+    env = dict(env)
+    for _ in range(6):
+        grew = False
+        for n in _own_nodes(f):
+            tg, val = [], None
+            if isinstance(n, ast.Assign):
+                tg, val = n.targets, n.value
+            elif isinstance(n, (ast.AnnAssign, ast.NamedExpr)) and n.value is not None:
+                tg, val = [n.target], n.value
+            if val is None or not _mentions(val, env):
+                continue
+            for t in tg:
+                for x in ast.walk(t):
+                    if isinstance(x, ast.Name) and isinstance(x.ctx, ast.Store) and not env.get(x.id):
+                        env[x.id] = "V"
+                        grew = True
+        if not grew:
+            break
+    return env
+
+
+def _unpack_chains(ctx, fn, depth=0, seen=()):
+    """every way from ``fn`` to a call of self.unpack_message through methods of the layer called on self:
+    [[(function, call node), ...]] - the last pair is the function containing the call of unpack_message and that call"""
+    out = []
+    for n in walk_in_order(fn):
+        if not (isinstance(n, ast.Call) and isinstance(n.func, ast.Attribute) and isinstance(n.func.value, ast.Name) and n.func.value.id == "self"):
+            continue
+        if n.func.attr == "unpack_message":
+            out.append([(fn, n)])
+            continue
+        if depth >= 3 or n.func.attr in seen:
+            continue
+        r = ctx.model.method(LAYER, "DNSLayer", n.func.attr)
+        if r is None or r[0].rel != LAYER or not isinstance(r[1], (ast.FunctionDef, ast.AsyncFunctionDef)) or r[1] is fn:
+            continue
+        for sub in _unpack_chains(ctx, r[1], depth + 1, seen + (n.func.attr,)):
+            out.append([(fn, n)] + sub)
+    return out
+
+
 def _r25_3(ctx):
     fn = ctx.func(LAYER, "DNSLayer.state_query")
     for q in ("DNSMessage.unpack", "DNSMessage.unpack_from"):
@@ -717,30 +777,48 @@ def _r25_3(ctx):
         ctx.func(DN, q)
     ctx.func(LAYER, "DNSLayer.unpack_message")
 
-    def reaches_unpack(stmts, depth=0):
-        """the statements call self.unpack_message, directly or through private helper methods of the layer"""
-        for st in stmts:
-            for n in walk_in_order(st):
-                if isinstance(n, ast.Call) and norm(n.func) == "self.unpack_message":
-                    return True
-                if isinstance(n, ast.Call) and norm(n.func).startswith("self._") and depth < 2:
-                    r = ctx.model.method(LAYER, "DNSLayer", norm(n.func)[5:]) if norm(n.func).count(".") == 1 else None
-                    if r is not None and reaches_unpack(r[1].body, depth + 1):
-                        return True
-        return False
-
-    tries = [n for n in walk_in_order(fn) if isinstance(n, ast.Try) and reaches_unpack(n.body)]
-    ctx.require(len(tries) == 1, "DNSLayer.state_query: the try around unpack_message changed shape")
-    t = tries[0]
-    # untrusted: the received bytes - event.data, the event that carries them, and any local that holds them
-    env = {"event.data": "V", "event": "V"}
-    for n in _own_nodes(fn):
-        if isinstance(n, ast.Assign) and norm(n.value) == "event.data":
-            env.update({x.id: "V" for x in n.targets if isinstance(x, ast.Name)})
+    # the guarded region is found by ROLE: the call of self.unpack_message reachable from state_query (directly or through helper methods of
+    # the layer, whatever they are called), and the handlers that are active when it runs: the `try` statements around the call in its own
+    # function and around the call sites of the helpers on the way down from state_query.
+    chains = _unpack_chains(ctx, fn)
+    ctx.require(len(chains) == 1, f"DNSLayer.state_query: {len(chains)} calls of self.unpack_message are reachable from it (exactly one is modelled)")
+    chain = chains[0]  # [(function, call node in it), ...] from state_query down to the call of unpack_message
+    # untrusted: the received bytes - event.data, the event that carries them, any local that holds them, and what the helpers are passed of it
+    env = _tainted_locals(fn, {"event.data": "V", "event": "V"})
+    for (g, call), (g2, _) in zip(chain, chain[1:]):
+        ps = [a.arg for a in g2.args.posonlyargs + g2.args.args]
+        ps = ps[1:] if "staticmethod" not in [norm(d) for d in g2.decorator_list] else ps
+        ctx.require(not any(isinstance(a, ast.Starred) for a in call.args) and not any(k.arg is None for k in call.keywords),
+                    f"DNSLayer.{g.name}: `{norm(call)[:60]}` passes */** arguments (not modelled)")
+        bound = {ps[i]: a for i, a in enumerate(call.args) if i < len(ps)}
+        bound.update({k.arg: k.value for k in call.keywords})
+        env = _tainted_locals(g2, {p: "V" for p, a in bound.items() if _mentions(a, env)})
+    site_fn, site_call = chain[-1]
+    site_qual = site_fn._qual
+    levels = []  # innermost first: (function, Try, handler class names)
     model = _DecoderModel(ctx)
     mr = MayRaise(ctx, Config(discharge=_make_discharge(ctx, model.get), dynamic=_dynamic, bounded_recursion=_recursion_bounds(ctx)))
-    esc = mr.region(LAYER, "DNSLayer.state_query", t.body, env)
-    key = mr.key_of_region(LAYER, "DNSLayer.state_query", env)
+    lmod = mr.model.module(LAYER)
+    for i in range(len(chain) - 1, -1, -1):
+        g, node = chain[i]
+        if i < len(chain) - 1 and _is_generator(chain[i + 1][0]):
+            # the helper below is a generator: its body (and what it raises) runs where it is iterated - that must be right here
+            p = getattr(node, "_parent", None)
+            eager = isinstance(p, ast.YieldFrom) or (isinstance(p, (ast.For, ast.comprehension)) and p.iter is node) or (
+                isinstance(p, ast.Call) and norm(p.func) in ("list", "tuple") and p.args[:1] == [node])
+            ctx.require(eager, f"DNSLayer.{g.name}: the generator `{norm(node)[:50]}` is not iterated where it is created (not modelled)")
+        child, p = node, getattr(node, "_parent", None)
+        while p is not None and child is not g:
+            if isinstance(p, ast.Try) and any(child is st for st in p.body):
+                names = []
+                for h in p.handlers:
+                    names += ["BaseException"] if h.type is None else mr.handler_names(lmod, h.type)
+                levels.append((g, p, names))
+            child, p = p, getattr(p, "_parent", None)
+    t = levels[0][1] if levels else site_call
+    region = [ast.copy_location(ast.Expr(value=site_call), site_call)]  # the call itself: what follows it in the try body is not decoding
+    esc = mr.region(LAYER, site_qual, region, env)
+    key = mr.key_of_region(LAYER, site_qual, env)
     need = {f"{LAYER}::DNSLayer.unpack_message", f"{DNS}::DNSMessage.unpack", f"{DNS}::DNSMessage.unpack_from", f"{DN}::{NAME_FN}", f"{DN}::decompress_from_record_data", f"{DN}::pack"}
     ctx.require(mr.sites >= 15 and need <= set(mr.functions), f"escape analysis collapsed: {mr.sites} raiser sites in {sorted(mr.functions)}")
     ctx.paths += mr.sites
@@ -748,9 +826,8 @@ def _r25_3(ctx):
         ctx.functions.add(f)
     model.get()
     handled = []
-    for h in t.handlers:
-        ctx.require(h.type is not None, "bare except around unpack_message (not modelled)")
-        handled += [mr.h.canon(mr.model.module(LAYER), e) for e in (h.type.elts if isinstance(h.type, ast.Tuple) else [h.type])]
+    for _, _, names in levels:
+        handled += [n for n in names if n not in handled]
     bad = sorted((e for e in esc if not any(mr.h.isa(e.exc, h) for h in handled)), key=lambda e: (e.exc, e.rel, e.qual, e.text))
     for typ in sorted({e.exc for e in bad}):
         first = next(e for e in bad if e.exc == typ)
